@@ -41,6 +41,9 @@ func c15VerdictAST(text []byte) (code int, ast string, hasRoot bool, pan any) {
 	return code, ast, hasRoot, rec
 }
 
+// c15Tails: user comments after the root value (empty ones included).
+var c15Tails = []string{" #", " # c", "\t#", "\n#", "\n# c", "\n#\n#", " #\n# c", "\n###\nblock\n###"}
+
 func c15Case(w *core.W, S []byte, entry string, firstBytes []byte) {
 	w.S.Evaluations++
 	w.S.Traces++
@@ -90,7 +93,7 @@ func c15Case(w *core.W, S []byte, entry string, firstBytes []byte) {
 		return // "if S is complete": follow-up clause only for accepted S
 	}
 	buf := make([]byte, 0, len(S)+32)
-	for _, nl := range []string{"\n", "\r\n"} {
+	for _, nl := range []string{"\n", "\r\n", "\r"} {
 		for _, fb := range firstBytes {
 			for _, rest := range c15Rests {
 				buf = append(buf[:0], S...)
@@ -129,7 +132,7 @@ func init() {
 	Register(&Prop{
 		ID:        "C15",
 		Technique: "bounded exhaustive enumeration of accepted schema texts (generated models + test corpus) x every follow-up first byte x a set of rests; Len() compared with itself on the prefix and on the extended text, verdict/AST compared on the prefix",
-		Rule:      "S = canonical renderings of the annotated-model family (every root kind) and the valid schemas of the test corpus; clauses Len<=|S|, S[:Len] same verdict and AST, idempotence; for accepted S: Len(S + LF|CRLF + b + rest) = Len(S) for all 250 non-blank first bytes b other than '/' and '#' x 11 rests; non-trivial = texts with a root value",
+		Rule:      "S = canonical renderings of the annotated-model family (every root kind) and the valid schemas of the test corpus; clauses Len<=|S|, S[:Len] same verdict and AST, idempotence; for accepted S: Len(S + LF|CRLF|CR + b + rest) = Len(S) for all 250 non-blank first bytes b other than '/' and '#' x 11 rests; non-trivial = texts with a root value",
 		Bounds: func(tier string) map[string]any {
 			return map[string]any{"first_bytes": len(firstAll), "rests": len(c15Rests), "family_level": map[string]int{"quick": 2, "thorough": 3}[tier], "quick_first_byte_classes": 28}
 		},
@@ -158,6 +161,12 @@ func init() {
 				}
 				if i%4 == 0 {
 					c15Case(w, []byte(m.Root.Print(gen.Layout{NL: "\n", Ann: "multi", Indent: "\t", Glue: true})), "family-glued-multi", firstQuick)
+				}
+				// the same schema followed by user comments that belong to it
+				if i%4 == 1 {
+					for _, tail := range c15Tails {
+						c15Case(w, append(append([]byte{}, S...), tail...), "family-comment-tail", firstQuick)
+					}
 				}
 				if i%499 == 1 {
 					w.Sample(string(S))
